@@ -13,7 +13,7 @@
 (* printed together with the outcome the specification expects.                                *)
 EXTENDS Tree, TLC, Json
 CONSTANTS LeafSet,      \* "small" | "std" | "all": leaves of the merge universe
-          RebuildWide,  \* TRUE: rebuild histories over all depth-2 trees on 3 keys with two kinds of leaves
+          RebuildWide,  \* TRUE: rebuild histories over all depth-2 trees on 3 keys (one kind of leaf) as well
           Deep,         \* TRUE: add the sampled depth-3 trees to the merge universe
           Wide3,        \* TRUE: add flat and sampled nested trees over 3 keys to the merge universe
           TableWide     \* TRUE: three kinds of leaves in the pattern universe, else two
@@ -43,7 +43,7 @@ Pick == {VInt(1), None,
          Branch([k \in {"a", "b"} |-> IF k = "a" THEN Branch([j \in {"a", "b"} |-> IF j = "a" THEN L1 ELSE None]) ELSE VInt(1)])}
 DeepU == {Branch(f) : f \in UNION {[S -> Pick] : S \in (SUBSET Key2) \ {{}}}}
 Wide3U == RootU(Key3, Leaf2, 1) \cup {Branch(f) : f \in [Key3 -> {VInt(1), Branch([k \in {"c"} |-> None]), Branch([k \in {"a", "c"} |-> VStr("s")])}]}
-SingleU == RootU(Key2, Leaf4, 2) \cup Wide3U \cup (IF RebuildWide THEN RootU(Key3, Leaf2, 2) ELSE {})
+SingleU == RootU(Key2, Leaf4, 2) \cup Wide3U \cup (IF RebuildWide THEN RootU(Key3, {VInt(1)}, 2) ELSE {})
 MergeU == RootU(Key2, MLeaf, 2) \cup (IF Deep THEN DeepU ELSE {}) \cup (IF Wide3 THEN Wide3U ELSE {})
 IgnU   == {{}, {None}, {None, VInt(1)}}
 
